@@ -1117,6 +1117,21 @@ def concrete_c17(c):
                 if not any((v[0] == "lit" and val == v[2]) or (v[0] != "lit" and val == v[1]) for v in actual):
                     problems.append("example %r of %s%s in %s is not a value of that property on an instance" % (m.group(1), "^" if stm.inverse else "", stm.pred, sh.label))
     shacl = c["reals"][1].get("shacl")
+    if shacl is not None and not extra.get("detect_minimal_iri"):
+        # examples only: the SHACL rendering states exactly what it states without the option (no sh:pattern, same graph)
+        import rdflib
+        import rdflib.compare
+        g = rdflib.Graph()
+        g.parse(data=shacl, format="turtle")
+        S = rdflib.Namespace(SH)
+        if list(g.triples((None, S.pattern, None))):
+            problems.append("sh:pattern %r printed although detect_minimal_iri is off" % sorted(str(o) for o in g.objects(None, S.pattern))[:2])
+        a_shacl = c["reals"][0].get("shacl")
+        if a_shacl is not None and not problems:
+            ga = rdflib.Graph()
+            ga.parse(data=a_shacl, format="turtle")
+            if not rdflib.compare.isomorphic(ga, g):
+                problems.append("examples_mode changes the SHACL graph")
     if shacl is not None and extra.get("detect_minimal_iri"):
         # SHACL rendering of the same run: sh:pattern "^<stem>" exactly for the shapes with a stem, and the same constraints as the ShExC text
         import rdflib
